@@ -597,6 +597,7 @@ class loader( reader ):
         self._n			= 0			#   and line we're currently parsing
         self._ts		= None			# Last received timestamp; if None, open will use advancing historical time
         self._strict		= False			#   True after opening a new file, goes False when _ts increases
+        self._ts0		= None			#   and the timestamp of the first record of the current file
         self.values		= {}			# Historical values at historical timestamp
         if values:
             # Some default values are provided; initialize our values to them, with a 0.0 timestamp
@@ -719,7 +720,8 @@ class loader( reader ):
                     after	= ( self.state != self.INITIAL )
                     self._i	= self.open( target=self._ts, after=after, lookahead=self.lookahead,
                                              strict=self._strict, encoding=encoding )
-                    self._strict= True # remains until we see increasing timestamps
+                    self._strict= True # remains until we accept a record newer than this file's first
+                    self._ts0	= None # timestamp of the first record of this file
 
                 assert self.state in (self.INITIAL, self.SWITCHING, self.STREAMING, self.EXHAUSTED, self.AWAITING)
                 # We have an open generator; process records.  We also still know if it was our
@@ -772,20 +774,8 @@ class loader( reader ):
                         break
 
                     # We got a non-None <ts>,<js>; if we aren't exhausted, we're now streaming!
-                    if self._strict:
-                        # But first, carefully release self._strict.  If we opened a file, we'll set
-                        # _strict.  The last file's final timestamp will be in self._ts; say it's
-                        # "2014-04-01 00:00:00", and there was increasing data in it, so
-                        # self._strict is false, and we just opened a new file, and its first and
-                        # only record also has timestamp "2014-04-01 00:00:01"; thus ts > self._ts;
-                        # So, do we want to release self._strict here?  No, because we'd re-open the
-                        # same file next time!  Therefore, we have to see ts > self._ts and
-                        # self.state isn't INITIAL/SWITCHING (eg. we've already seen records from
-                        # the file )
-                        if self.state not in (self.INITIAL, self.SWITCHING) and (
-                                self._ts is None or ts > self._ts ):
-                            log.debug( "%s Playback releasing strict for next open: %s > %s", self, ts, self._ts )
-                            self._strict	= False
+                    if self._ts0 is None and self.state != self.EXHAUSTED:
+                        self._ts0	= ts	# the first record of the file just opened
 
                     if self.state in (self.INITIAL, self.SWITCHING, self.AWAITING):
                         self.state	= self.STREAMING
@@ -825,6 +815,11 @@ class loader( reader ):
                         # future and generate an event with <ts>,<data>; otherwise, log/ignore it.
                         if self._ts is None or ts >= self._ts:
                             self._ts	= ts
+                            if self._strict and self._ts0 is not None and ts > self._ts0:
+                                # An accepted record newer than the file's first record; the next
+                                # open( target=self._ts ) can no longer select this file again.
+                                log.debug( "%s Playback releasing strict for next open: %s > %s", self, ts, self._ts0 )
+                                self._strict = False
                             events.append( {
                                 'timestamp':	ts,
                                 'command':	'register',
